@@ -154,7 +154,9 @@ func nonNilIsAny(err error, matches []error) bool {
 				// ensure append (up next) copies, just in case
 				more = wrapped[:len(wrapped):len(wrapped)]
 			} else {
-				more = append(more, wrapped...)
+				// Force a copy because popped entries leave more
+				// with spare capacity in the array of a wrapped.
+				more = append(more[:len(more):len(more)], wrapped...)
 			}
 		}
 
